@@ -272,6 +272,7 @@ Accessible(vis, def, from, samecrate) ==
     [] vis = "pub(crate)"  -> samecrate
     [] vis = "pub(super)"  -> samecrate /\ IsPrefix(ParentOf(def), from)
     [] vis = "pub(in crate::cases)" -> samecrate /\ IsPrefix(<<"cases">>, from)
+    [] vis = "pub(in crate::cases::p)" -> samecrate /\ IsPrefix(<<"cases", "p">>, from)      \* a multi-segment path: the parent of D
 \* in : [vis: the visibility written before the trait name (for an entraited trait: the trait's own visibility,
 \*       which the delegation-target trait must take), def, from, samecrate]
 \* o  : [compiled: does naming the trait from `from` compile, privacyonly: if not, is every error a privacy error]
